@@ -254,24 +254,102 @@ pub fn strat_indef(t: Tier) -> BoxedStrategy<DecompCase> {
     prop_oneof![3 => random, 1 => integer].boxed()
 }
 
+/// Rank-deficient inputs for the SVD solver.  The property promises the minimum-norm
+/// solution for *exactly* rank-deficient A, so two classes are rank-deficient in exact
+/// arithmetic by construction (no rounding can lift the rank):
+///   * `rank-deficient/dup`: a well-conditioned m x r block B, the other n-r columns being
+///     zero or +-2^k multiples of columns of B, columns permuted; exact under any rescaling
+///     and under rounding to f32.  null vectors: e_c for a zero column c, f*e_j - e_c for a copy.
+///   * `rank-deficient/int`: [B, B*W] with small integers (B = 32*I + noise on top, r <= 4),
+///     columns permuted, rescaled by a power of two only; null vectors [W; -I].
+/// A third class, `rank-deficient/rounded` (U diag(s,0) V^T evaluated in floating point), is
+/// rank-deficient only up to rounding (sigma_{r+1} ~ eps*sigma_1): whether the solver's rank
+/// cut-off drops that singular value is not determined by the property, so only the
+/// factorisation and the normal equations are checked there (empty null basis).
 pub fn strat_rankdef(t: Tier) -> BoxedStrategy<DecompCase> {
-    (2..=*dim(t).end(), 2..=*dim(t).end(), prop::bool::weighted(0.2))
-        .prop_flat_map(|(x, y, f32)| {
-            let (m, n) = (x.max(y), x.min(y));
-            (1..n, Just((m, n, f32)))
+    let hi = *dim(t).end();
+    let shape = (2..=hi, 2..=hi, prop::bool::weighted(0.2)).prop_flat_map(|(x, y, f32)| {
+        let (m, n) = (x.max(y), x.min(y));
+        (1..n, Just((m, n, f32)))
+    });
+    let rounded = shape.clone().prop_flat_map(|(r, (m, n, f32))| {
+        (spectrum(r, 2.0), orth(m), orth(n), rhs(m), scale_strategy(f32)).prop_map(move |(s, u, v, b, sc)| {
+            let mut sm = Mat::zeros(m, n);
+            for i in 0..r {
+                sm.set(i, i, s[i]);
+            }
+            let a = u.mul(&sm).mul(&v.t());
+            finish(f32, "rank-deficient/rounded".to_string(), sc, a, b, false, Some(Mat::zeros(n, 0)))
         })
-        .prop_flat_map(|(r, (m, n, f32))| {
-            (spectrum(r, 2.0), orth(m), orth(n), rhs(m), scale_strategy(f32)).prop_map(move |(s, u, v, b, sc)| {
-                let mut sm = Mat::zeros(m, n);
-                for i in 0..r {
-                    sm.set(i, i, s[i]);
+    });
+    let dup = shape.clone().prop_flat_map(|(r, (m, n, f32))| {
+        (
+            cond_mat(m, r, 2.0),
+            vec((any::<u16>(), 0usize..=5, any::<bool>()), n - r),
+            vec(0u32..=0xffff, n),
+            rhs(m),
+            scale_strategy(f32),
+            any::<bool>(),
+        )
+            .prop_map(move |(bm, extra, perm_keys, b, sc, ir)| {
+                // column order: a permutation of 0..n derived from sort keys
+                let mut order: Vec<usize> = (0..n).collect();
+                order.sort_by_key(|j| (perm_keys[*j], *j));
+                let mut a = Mat::zeros(m, n);
+                let mut null = Mat::zeros(n, n - r);
+                for j in 0..r {
+                    for i in 0..m {
+                        a.set(i, order[j], bm.at(i, j));
+                    }
                 }
-                let a = u.mul(&sm).mul(&v.t());
-                let null = v.slice(0, n, r, n);
-                finish(f32, format!("rank-deficient"), sc, a, b, false, Some(null))
+                for (e, (sel, k, neg)) in extra.iter().enumerate() {
+                    let c = order[r + e];
+                    if *k == 5 {
+                        null.set(c, e, 1.0); // zero column
+                    } else {
+                        let j = idx(*sel, r);
+                        let f = 2f64.powi(*k as i32 - 2) * if *neg { -1.0 } else { 1.0 };
+                        for i in 0..m {
+                            a.set(i, c, f * bm.at(i, j));
+                        }
+                        null.set(order[j], e, f);
+                        null.set(c, e, -1.0);
+                    }
+                }
+                finish(f32, "rank-deficient/dup".to_string(), sc, a, b, ir, Some(null))
             })
-        })
-        .boxed()
+    });
+    let int = shape.prop_flat_map(|(r0, (m, n, f32))| {
+        let r = r0.min(4);
+        (int_mat(m, r, -4, 4), int_mat(r, n - r, -2, 2), vec(0u32..=0xffff, n), rhs(m), pow2(-30, 30), any::<bool>()).prop_map(
+            move |(mut bm, w, perm_keys, b, sc, ir)| {
+                for i in 0..r {
+                    bm.set(i, i, bm.at(i, i) + 32.0);
+                }
+                let mut order: Vec<usize> = (0..n).collect();
+                order.sort_by_key(|j| (perm_keys[*j], *j));
+                let bw = bm.mul(&w);
+                let mut a = Mat::zeros(m, n);
+                let mut null = Mat::zeros(n, n - r);
+                for i in 0..m {
+                    for j in 0..r {
+                        a.set(i, order[j], bm.at(i, j));
+                    }
+                    for e in 0..n - r {
+                        a.set(i, order[r + e], bw.at(i, e));
+                    }
+                }
+                for e in 0..n - r {
+                    for j in 0..r {
+                        null.set(order[j], e, w.at(j, e));
+                    }
+                    null.set(order[r + e], e, -1.0);
+                }
+                finish(f32, "rank-deficient/int".to_string(), sc, a, b, ir, Some(null))
+            },
+        )
+    });
+    prop_oneof![2 => rounded, 3 => dup, 2 => int].boxed()
 }
 
 pub fn prep(case: &DecompCase) -> (Mat, Mat, f64) {
@@ -478,8 +556,13 @@ pub fn svd_run<T: RealNumber, B: Build<T>>(a: &Mat, b: &Mat, null: &Option<Mat>,
     };
     ensure!(xs2.slice(0, n, 0, b.c) == x, "svd/solve-mut-differs", "svd_solve and svd_solve_mut disagree");
     if let Some(nb) = null {
-        // minimum norm: no component in the null space of A
-        ctx.bound("svd/min-norm", nb.t().mul(&x).fro(), C * eps * dimf * 16.0 * (x.fro() + b.fro() / an))?;
+        // minimum norm: no component in the null space of A.  The columns of `nb` span the null
+        // space exactly but need not be orthonormal (smallest singular value >= 1), so the
+        // defect N^T x is measured relative to |N|.
+        if nb.c > 0 {
+            ctx.label("min-norm-asserted");
+            ctx.bound("svd/min-norm", nb.t().mul(&x).fro(), C * eps * dimf * 16.0 * nb.fro() * (x.fro() + b.fro() / an))?;
+        }
     }
     Ok(())
 }
